@@ -171,6 +171,19 @@ claim('C05',
       'DESIGN.md section 4 C05')
 
 
+claim('C09',
+      'Stats.tla defines the six accumulators, the work split loop of the code, the merge of worker buffers, the '
+      'collapse to a coarser hierarchy; TLC proves on every small dataset that the merged result equals the '
+      'direct definition for every split into files, chunk size and worker count and that the split is an '
+      'ordered partition; random datasets are run through the real stage (mixed encodings, files, chunk sizes, '
+      'workers) and the written file, the WorkSplit hook event, the collapsed file and the merge of per-dataset '
+      'files are validated by Stats_Trace in exact integer arithmetic.',
+      'Trusted: TLC; integer log2CPM inputs make the sums exact; raw-count references are compared with a '
+      'float64 recomputation to 1e-9 in the projection.',
+      'TLA+ model checked exhaustively + trace validation of the written statistics files',
+      'DESIGN.md section 4 C09')
+
+
 def build():
     props = [json.loads(l) for l in open(ROOT / 'properties.jsonl')]
     checks = []
@@ -224,7 +237,7 @@ def build():
     return m
 
 
-HOOK_COMMITS = ['1bd1220', '739be0d']
+HOOK_COMMITS = ['1bd1220', '739be0d', '18d954b']
 
 if __name__ == '__main__':
     m = build()
